@@ -1,11 +1,11 @@
 package rules
 
 import (
-	"strings"
 	"fmt"
 	"go/ast"
 	"go/token"
 	"go/types"
+	"strings"
 
 	"asverif/internal/eff"
 	"asverif/internal/gf"
@@ -249,6 +249,46 @@ func (c *Ctx) deleteOnEveryIteration(fn *gf.Fn, an *gf.Analysis, loop ast.Stmt, 
 	head := loopHead(fn, loop)
 	skipped := head != nil && a.BlockReached(head)
 	c.Check(!skipped, "C13.2-no-skip", fname+": delete loop", call.Pos(), "every iteration reaches the Delete call before the next one starts", "an iteration can go on to the next revision without deleting this one: a younger revision may be deleted while an older one is kept")
+	// and the loop runs to its end: it is left early only with an error ("after a successful reconcile at most
+	// revisionHistoryLimit unused revisions remain")
+	c.loopLeftOnlyWithError(fn, an, loop, "C13.2-truncation-completes", fname+": delete loop")
+}
+
+// loopLeftOnlyWithError: every return inside the loop hands back a non-nil error, and there is no break out of it.
+func (c *Ctx) loopLeftOnlyWithError(fn *gf.Fn, an *gf.Analysis, loop ast.Stmt, rule, name string) {
+	body := loopBody(loop)
+	if body == nil {
+		return
+	}
+	n := 0
+	good := true
+	why := ""
+	ownNodes(body, func(x ast.Node) {
+		switch y := x.(type) {
+		case *ast.ReturnStmt:
+			st := an.StateBefore(y)
+			if !st.Reachable() {
+				return
+			}
+			n++
+			if len(y.Results) == 0 {
+				good, why = false, "a bare return at "+c.P.Pos(y.Pos())
+				return
+			}
+			last := y.Results[len(y.Results)-1]
+			if isErrorCtor(fn.Info, last) {
+				return
+			}
+			if g, _ := st.Implies(gf.FNotNil(fn.Term(last))); !g {
+				good, why = false, "the return at "+c.P.Pos(y.Pos())+" can report success before the remaining items were handled"
+			}
+		case *ast.BranchStmt:
+			if y.Tok == token.BREAK && innermostBreakTarget(body, y) == nil {
+				good, why = false, "a break at "+c.P.Pos(y.Pos())+" leaves the loop before the remaining items were handled"
+			}
+		}
+	})
+	c.Check(good, rule, name, loop.Pos(), fmt.Sprintf("left early only with a non-nil error (%d returns)", n), why)
 }
 
 // fieldBase strips the selection of field name (through embedded structs) from t and returns the base, or nil.
@@ -458,6 +498,36 @@ func (c *Ctx) liveSet(fi *load.FuncInfo, fn *gf.Fn, live types.Object) {
 		c.Check(found, "C13.1-live-current-and-update", fname+": live["+rp.Name+".Name]", fi.Decl.Pos(), "marked live at initialisation", "the revision parameter "+rp.Name+" is not marked live")
 		if found {
 			nLiveParams++
+		}
+	}
+	// the chooser's results may arrive together, as the struct it returns: its two revision fields are then what
+	// has to be marked live, and the argument has to be that result (truncateCallers)
+	var carrier *ast.Ident
+	if shape := c.chooser(); nLiveParams < 2 && shape != nil && shape.structured && fi == truncFI {
+		want := shape.fi.Obj.Type().(*types.Signature).Results().At(0).Type()
+		for _, f := range fi.Decl.Type.Params.List {
+			for _, pn := range f.Names {
+				if types.Identical(info.TypeOf(pn), want) {
+					carrier = pn
+				}
+			}
+		}
+		if carrier != nil {
+			for _, fld := range []string{shape.curField, shape.updField} {
+				found := false
+				if wt := c.TryWantTerm(fn, body.Lbrace+1, "$1."+fld+".Name", carrier); wt != nil && lit != nil {
+					for _, el := range lit.Elts {
+						if kv, ok := el.(*ast.KeyValueExpr); ok && fn.Term(kv.Key).Key() == wt.Key() && fn.Formula(kv.Value) == gf.True {
+							found = true
+						}
+					}
+				}
+				c.Check(found, "C13.1-live-current-and-update", fname+": live["+carrier.Name+"."+fld+".Name]", fi.Decl.Pos(), "marked live at initialisation", "the revision "+carrier.Name+"."+fld+" is not marked live")
+				if found {
+					nLiveParams++
+				}
+			}
+			truncRevs = append(truncRevs, carrier)
 		}
 	}
 	// the two revisions this reconcile computed must be handed in and marked live: a name read from the
@@ -752,14 +822,19 @@ func (c *Ctx) truncateCallers(fi *load.FuncInfo, revs []*ast.Ident) {
 	if choose == nil {
 		return
 	}
-	// parameter positions
+	// parameter positions (whole: the parameter carries the chooser's struct result, both revisions at once)
 	pos := map[int]string{}
+	whole := map[int]bool{}
 	i := 0
 	for _, f := range fi.Decl.Type.Params.List {
 		for _, n := range f.Names {
 			for _, rp := range revs {
 				if rp == n && types.TypeString(fi.Pkg.TypesInfo.TypeOf(n), nil) == "*k8s.io/api/apps/v1.ControllerRevision" {
 					pos[i] = n.Name
+				}
+				if rp == n && types.TypeString(fi.Pkg.TypesInfo.TypeOf(n), nil) != "*k8s.io/api/apps/v1.ControllerRevision" && structOfType(fi.Pkg.TypesInfo.TypeOf(n)) != nil {
+					pos[i] = n.Name
+					whole[i] = true
 				}
 			}
 			i++
@@ -790,7 +865,11 @@ func (c *Ctx) truncateCallers(fi *load.FuncInfo, revs []*ast.Ident) {
 								return true
 							}
 							for li, l := range as.Lhs {
-								if lid, ok := l.(*ast.Ident); ok && info.ObjectOf(lid) == info.ObjectOf(id) && li < 2 {
+								if lid, ok := l.(*ast.Ident); ok && info.ObjectOf(lid) == info.ObjectOf(id) && whole[k] && li == 0 {
+									good = true
+									continue
+								}
+								if lid, ok := l.(*ast.Ident); ok && info.ObjectOf(lid) == info.ObjectOf(id) && li < 2 && !whole[k] {
 									good = !used[li]
 									used[li] = true
 									if !good {
@@ -834,4 +913,14 @@ func assignedBetweenCalls(info *types.Info, body ast.Node, obj types.Object, src
 		return true
 	})
 	return bad
+}
+
+// isErrorCtor: e is fmt.Errorf(...) or errors.New(...): a non-nil error built on the spot.
+func isErrorCtor(info *types.Info, e ast.Expr) bool {
+	call, ok := ast.Unparen(e).(*ast.CallExpr)
+	if !ok {
+		return false
+	}
+	f := gf.StaticCallee(info, call)
+	return f != nil && (f.FullName() == "fmt.Errorf" || f.FullName() == "errors.New")
 }
